@@ -29,6 +29,27 @@ from collections import Counter as C
 def submulti(a, b):
     ca, cb = C(a), C(b)
     return all(ca[k] <= cb[k] for k in ca)
+def kinds_mixed(o, s):
+    """ORDER BY is only specified for key columns holding one kind of value: returns True when some key
+    column of the (unlimited) reference result mixes kinds."""
+    ob = [w for w in o.split() if w.startswith("ob=")][0][3:]
+    if ob == "-":
+        return False
+    keys = [k.split(":")[0] for k in ob.split(",")]
+    s2 = s.split(" ", 1)[1] if s.startswith("limit=") else s
+    cs = cols(s2).split(",")
+    for k in keys:
+        if k not in cs:
+            continue
+        i = cs.index(k)
+        ks = set()
+        for r in rows(s2):
+            c = r.split("|")[i]
+            p = c.split(",")[0]
+            ks.add("P" if p in ("PI", "PT") else p)
+        if len(ks) > 1:
+            return True
+    return False
 def interval_clause(o):
     c = [w for w in o.split() if w.startswith("c=")][0][2:]
     for cl in c.split(";"):
@@ -45,6 +66,11 @@ for o, a, m, s in zip(ops, impl, model, spec):
     text = bytes.fromhex(o.split("text=")[1].split()[0]).decode()
     lim = "lim=-" not in o
     ordered = " ob=-" not in o
+    if ordered and s != "unsupported" and s.startswith(("ok", "limit=")) and kinds_mixed(o, s):
+        ordered = False
+        a = a.split("rows=")[0] + "rows=" + ";".join(sorted(rows(a))) if a.startswith("ok") else a
+        m = m.split("rows=")[0] + "rows=" + ";".join(sorted(rows(m))) if m.startswith("ok") else m
+        s = s.split("rows=")[0] + "rows=" + ";".join(sorted(rows(s)))
     # model vs impl
     if m == "unsupported":
         cat["unsupported"] += 1
